@@ -2,19 +2,24 @@ package proxy
 
 // C17 — the AI gateway blocks what it must block and caches only what matches.
 //
-// Three groups of generated request sequences run against the real AIProxy.ServeHTTP with a
+// Five groups of generated request sequences run against the real AIProxy.ServeHTTP with a
 // real engine.Engine underneath, a stub embedder (every prompt -> a unit vector chosen by the
-// test, so every distance is designed: <= T/2 or >= 2T) and a counting httptest upstream:
+// test, so every distance is designed: <= T/2 or >= 2T) and a counting in-process upstream:
 //
 //	firewall   — prompts (plain / mixed case / embedded / task-marker phrases / histories /
 //	             `prompt` and `messages` shapes / empty / repeated) against deny patterns and a
-//	             forbidden-prompt index; reference = pattern match OR min distance < threshold.
-//	cache      — new / near / far / streaming / planted-young / planted-old / shadowed /
-//	             firewall-beats-cache requests; reference = a fresh entry within the cache
-//	             distance serves, nothing else does.
-//	invalidate — cache entries created through the real flow with RAG enabled (sources =
-//	             retrieved chunk ids) plus planted ones; POST /cache/invalidate removes exactly
-//	             the entries whose space-separated sources contain the id.
+//	             forbidden-prompt index (float32 or float16, unit or scaled vectors, prompts deleted and
+//	             stored again during the case); reference = pattern match OR min distance < threshold.
+//	cache      — new / near / far / streaming / planted-young / planted-old / shadowed (1..8 expired
+//	             entries in front of a fresh one) / firewall-beats-cache / firewall-switched-off requests,
+//	             answers of 70-230 KB; reference = a fresh entry within the cache distance serves, nothing
+//	             else does.
+//	invalidate — cache entries created through the real flow with RAG enabled (cited documents = the
+//	             chunks whose text the upstream was sent) plus planted ones; POST /cache/invalidate
+//	             removes exactly the entries that cite the id; re-asked afterwards. Firewall requests in
+//	             the same (RAG) world.
+//	bigindex   — forbidden-prompt / cache indexes of 40..2000 random vectors (c17_ext_test.go).
+//	paging     — invalidation on a cache index of more than 1000 entries (c17_ext_test.go).
 
 import (
 	"fmt"
@@ -37,10 +42,15 @@ func TestVerifC17(t *testing.T) {
 		ctx.Assume("every query/stored-vector distance is designed: <= T/2 or >= 2T in the index's metric distance (for euclidean under both the squared and the plain L2 reading)")
 		ctx.Assume("thresholds are distances (proxy.yaml: 'Block if distance < 0.25', 'Cache hit if distance < 0.1')")
 		ctx.Assume("task-marker / empty prompts are kept far from every cache entry: their pass-through is only judged against the firewall clause")
+		ctx.Assume("'younger than the TTL' is judged only for entries at least 5 s (plus the duration of the request) away from the TTL on the harness clock; a case whose clock margins run out ends without a verdict (case.abandoned.*)")
+		ctx.Assume("the query rewriter's LLM of RAG worlds is unreachable (rewriting fails, the gateway goes on with the latest user message)")
 		c17Probes(ctx)
-		ctx.Group("firewall", ctx.N(240, 6000), func(cs *vkit.Case) { c17FirewallCase(ctx, cs) })
-		ctx.Group("cache", ctx.N(160, 4000), func(cs *vkit.Case) { c17CacheCase(ctx, cs) })
-		ctx.Group("invalidate", ctx.N(100, 2500), func(cs *vkit.Case) { c17InvalidateCase(ctx, cs) })
+		c17ProbesExt(ctx)
+		ctx.Group("firewall", ctx.N(240, 6000), c17Quietly(ctx, func(cs *vkit.Case) { c17FirewallCase(ctx, cs) }))
+		ctx.Group("cache", ctx.N(160, 4000), c17Quietly(ctx, func(cs *vkit.Case) { c17CacheCase(ctx, cs) }))
+		ctx.Group("invalidate", ctx.N(100, 2500), c17Quietly(ctx, func(cs *vkit.Case) { c17InvalidateCase(ctx, cs) }))
+		ctx.Group("bigindex", ctx.N(12, 144), c17Quietly(ctx, func(cs *vkit.Case) { c17BigIndexCase(ctx, cs) }))
+		ctx.Group("paging", ctx.N(2, 16), c17Quietly(ctx, func(cs *vkit.Case) { c17PagingCase(ctx, cs) }))
 	})
 }
 
@@ -64,6 +74,11 @@ var c17Patterns = []c17Pattern{
 	{`BEGIN (RSA )?PRIVATE KEY`, []string{"begin private key", "BEGIN RSA PRIVATE KEY"}},
 	{`Api[-_ ]?Key`, []string{"apikey", "API_KEY", "api key"}},
 	{`(?i)Secret Token`, []string{"secret token", "SECRET TOKEN"}},
+	// perl classes incl. the negated ones, a non-ASCII literal, a pattern that must match across a line break
+	{`key\s*=\s*\S+`, []string{"key = hunter2", "key=abc", "KEY\t=\tx9"}},
+	{`\d{3}-\D`, []string{"555-x", "123-abc"}},
+	{`città segreta`, []string{"città segreta", "CITTÀ SEGRETA"}},
+	{`(?s)begin.*end`, []string{"begin\nthe end", "begin and end", "BEGIN\n\nEND"}},
 }
 
 var c17Benign = []string{"please", "explain", "weather", "rome", "tomorrow", "recipe", "bread", "sum", "two", "numbers",
@@ -81,7 +96,7 @@ var c17Seps = []string{" ", " ", "\n", "\t", ", ", " (", "\" ", ". "}
 func c17MixCase(r *vkit.Rand, s string) string {
 	rs := []rune(s)
 	for i, c := range rs {
-		if c < 128 && unicode.IsLetter(c) {
+		if unicode.IsLetter(c) && unicode.ToLower(unicode.ToUpper(c)) == unicode.ToLower(c) && unicode.ToUpper(unicode.ToLower(c)) == unicode.ToUpper(c) {
 			if r.Chance(0.5) {
 				rs[i] = unicode.ToUpper(c)
 			} else {
@@ -141,7 +156,7 @@ func (g *c17Rig) text(inst, style, marker string) string {
 func (g *c17Rig) designed(v []float32) bool {
 	if g.o.FirewallEnabled {
 		for _, f := range g.forbidden {
-			if c17Class(g.o.FwMetric, c17Dist(g.o.FwMetric, v, f.Vec), g.o.Tf) == 0 {
+			if !f.Deleted && c17Class(g.o.FwMetric, c17Dist(g.o.FwMetric, v, f.Vec), g.o.Tf) == 0 {
 				return false
 			}
 		}
@@ -161,6 +176,7 @@ func (g *c17Rig) designed(v []float32) bool {
 // basis vector (orthogonal to everything stored) when the candidate would be undesigned
 // against some other stored vector.
 func (g *c17Rig) vecRel(anchor []float32, metric distance.DistanceMetric, T float64, near bool) ([]float32, string) {
+	anchor = c17Unit(anchor) // a stored vector may be scaled (cosine worlds)
 	for try := 0; try < 4; try++ {
 		cos, label := c17DesignCos(metric, T, near, g.cs.R)
 		v := c17Rotate(anchor, g.sp.basis(), cos)
@@ -177,8 +193,8 @@ func (g *c17Rig) vecRel(anchor []float32, metric distance.DistanceMetric, T floa
 
 func (g *c17Rig) vecFar() ([]float32, string) {
 	r := g.cs.R
-	if g.o.FirewallEnabled && len(g.forbidden) > 0 && r.Chance(0.5) {
-		return g.vecRel(vkit.Pick(r, g.forbidden).Vec, g.o.FwMetric, g.o.Tf, false)
+	if live := g.liveForbidden(); g.o.FirewallEnabled && len(live) > 0 && r.Chance(0.5) {
+		return g.vecRel(g.forbidden[vkit.Pick(r, live)].Vec, g.o.FwMetric, g.o.Tf, false)
 	}
 	if g.o.CacheEnabled && len(g.entries) > 0 && r.Chance(0.5) {
 		return g.vecRel(vkit.Pick(r, g.entries).Vec, g.cacheMetric(), g.o.Tc, false)
@@ -191,6 +207,9 @@ func (g *c17Rig) vecFar() ([]float32, string) {
 func (g *c17Rig) guarded(q *c17Req) string {
 	want := g.reference(q)
 	if want.Outcome == "unjudged" {
+		if want.Why == "clock" {
+			return "clock-undecided"
+		}
 		return "unjudged-passthrough-near-cache"
 	}
 	if g.ctx.IsKnown("D-C17-3") && q.Marker && want.Outcome == "blocked" {
@@ -220,9 +239,54 @@ func (g *c17Rig) guarded(q *c17Req) string {
 		// exact trigger of D-C17-7: an expired entry is at least as near as the nearest fresh one
 		cm := g.cacheMetric()
 		for _, en := range g.entries {
-			if !en.Removed && !en.Fresh && c17Dist(cm, q.Vec, en.Vec) <= want.MinCa+1e-6 {
+			if !en.Removed && !g.fresh(en) && c17Dist(cm, q.Vec, en.Vec) <= want.MinCa+1e-6 {
 				return "D-C17-7"
 			}
+		}
+	}
+	if g.ctx.IsKnown("D-C17-8") && want.Outcome == "hit" {
+		// exact trigger of D-C17-8: cacheLookupK (5) or more expired entries are nearer than the nearest fresh one
+		cm := g.cacheMetric()
+		n := 0
+		for _, en := range g.entries {
+			if !en.Removed && !g.fresh(en) && c17Dist(cm, q.Vec, en.Vec) <= want.MinCa+1e-6 {
+				n++
+			}
+		}
+		if n >= 5 {
+			return "D-C17-8"
+		}
+	}
+	if g.ctx.IsKnown("D-C17-10") && (want.Outcome == "blocked" && want.Why == "semantic" && len(g.forbidden) > 32 || want.Outcome == "hit" && len(g.entries) > 32) {
+		// exact trigger of D-C17-10: on an index too large for the engine's search to be exhaustive (> 2*M = 32
+		// vectors) the lookup the gateway performs — engine search with k = 1 (firewall) / k = 5 (cache), whose
+		// beam is then only k wide — does not return any of the stored vectors that lie within the threshold
+		found := false
+		if want.Outcome == "blocked" {
+			if res, err := g.eng.VSearchWithScores(c17FwIndex, q.Vec, 1); err == nil {
+				for _, r := range res {
+					for _, f := range g.forbidden {
+						if !f.Deleted && f.ID == r.ID && c17Class(g.o.FwMetric, c17Dist(g.o.FwMetric, q.Vec, f.Vec), g.o.Tf) == +1 {
+							found = true
+						}
+					}
+				}
+			}
+		} else {
+			cm := g.cacheMetric()
+			if res, err := g.eng.VSearchWithScores(c17CacheIndex, q.Vec, 5); err == nil {
+				for _, r := range res {
+					for _, en := range g.entries {
+						if !en.Removed && en.ID == r.ID && g.fresh(en) && c17Class(cm, c17Dist(cm, q.Vec, en.Vec), g.o.Tc) == +1 {
+							found = true
+						}
+					}
+				}
+			}
+		}
+		if !found {
+			g.ctx.Count(fmt.Sprintf("guard.D-C17-10.%s.index_size_le_%d", want.Outcome, c17Bucket(max(len(g.forbidden), len(g.entries)))), 1)
+			return "D-C17-10"
 		}
 	}
 	if g.ctx.IsKnown("D-C17-6") && want.Outcome == "hit" {
@@ -235,7 +299,7 @@ func (g *c17Rig) guarded(q *c17Req) string {
 			cm := g.cacheMetric()
 			for _, r := range res {
 				for _, en := range g.entries {
-					if !en.Removed && en.Fresh && en.ID == r.ID && c17Class(cm, c17Dist(cm, q.Vec, en.Vec), g.o.Tc) == +1 {
+					if !en.Removed && g.fresh(en) && en.ID == r.ID && c17Class(cm, c17Dist(cm, q.Vec, en.Vec), g.o.Tc) == +1 {
 						found = true
 					}
 				}
@@ -246,6 +310,15 @@ func (g *c17Rig) guarded(q *c17Req) string {
 		}
 	}
 	return ""
+}
+
+func c17Bucket(n int) int {
+	for _, b := range []int{100, 200, 400, 800, 1600} {
+		if n <= b {
+			return b
+		}
+	}
+	return 3200
 }
 
 // step judges q unless a generator guard removes it; it does the evidence accounting.
@@ -259,6 +332,9 @@ func (g *c17Rig) step(group string, q *c17Req) (c17Verdict, bool) {
 		} else {
 			q.Path = vkit.Pick(g.cs.R, []string{"/v1/chat/completions", "/v1/chat/completions", "/api/chat"})
 		}
+	}
+	if !q.Stream && !q.NoStreamKey && g.cs.R.Chance(0.3) {
+		q.NoStreamKey = true
 	}
 	if id := g.guarded(q); id != "" {
 		g.ctx.Count("guard."+id, 1)
@@ -307,6 +383,7 @@ func c17FirewallCase(ctx *vkit.Ctx, cs *vkit.Case) {
 		CacheMetric: distance.Cosine, Tc: 0.1, TTL: time.Hour}
 	var pats []c17Pattern
 	o.Deny, pats = c17PickDeny(r, 0)
+	o.FwF16 = r.Chance(0.3)
 	if r.Chance(0.25) {
 		o.CacheEnabled = true
 		o.Tc = vkit.Pick(r, c17Thresholds)
@@ -316,21 +393,37 @@ func c17FirewallCase(ctx *vkit.Ctx, cs *vkit.Case) {
 	defer g.close()
 	if o.FwIndexCreated {
 		for i, m := 0, r.Intn(5); i < m; i++ {
-			g.addForbidden(g.sp.basis())
+			g.addForbidden(g.fwVector(g.sp.basis()))
 		}
 	}
 	kinds := []string{"benign", "benign", "pattern", "pattern", "pattern", "semantic", "semantic", "both",
-		"marker-benign", "marker-pattern", "marker-semantic", "hist-earlier-denied", "hist-last-denied", "hist-benign", "empty", "repeat"}
+		"marker-benign", "marker-pattern", "marker-semantic", "hist-earlier-denied", "hist-last-denied", "hist-benign", "empty", "repeat",
+		"deleted-near", "replaced"}
 	for s, n := 0, r.Range(10, 16); s < n; s++ {
 		g.step("firewall", g.genFirewallReq(vkit.Pick(r, kinds), pats))
 	}
+}
+
+// fwVector: a stored forbidden prompt need not be a unit vector. Under the cosine metric its length is
+// irrelevant to the distance, so there (only) the vector is stored scaled.
+func (g *c17Rig) fwVector(v []float32) []float32 {
+	if g.o.FwMetric != distance.Cosine || !g.cs.R.Chance(0.3) {
+		return v
+	}
+	k := vkit.Pick(g.cs.R, []float32{3, 0.25, 40})
+	out := make([]float32, len(v))
+	for i := range v {
+		out[i] = k * v[i]
+	}
+	return out
 }
 
 func (g *c17Rig) genFirewallReq(kind string, pats []c17Pattern) *c17Req {
 	r := g.cs.R
 	needPat := strings.Contains(kind, "pattern") || kind == "both" || strings.HasPrefix(kind, "hist-") && kind != "hist-benign"
 	needSem := strings.Contains(kind, "semantic") || kind == "both"
-	if needPat && len(pats) == 0 || needSem && len(g.forbidden) == 0 {
+	live := g.liveForbidden()
+	if needPat && len(pats) == 0 || (needSem || kind == "deleted-near" || kind == "replaced") && len(live) == 0 {
 		kind = "benign"
 		needPat, needSem = false, false
 	}
@@ -356,6 +449,33 @@ func (g *c17Rig) genFirewallReq(kind string, pats []c17Pattern) *c17Req {
 		return &p
 	case "benign":
 		q.Text = g.text("", "", "")
+	case "deleted-near", "replaced":
+		// index history: a forbidden prompt that is not stored any more does not block ("a STORED forbidden
+		// prompt"); the ones still stored go on blocking (that is what later semantic requests of the case see)
+		i := vkit.Pick(r, live)
+		old := g.forbidden[i].Vec
+		g.deleteForbidden(i)
+		q.Text = g.text("", "", "")
+		target, near := old, true
+		if kind == "replaced" {
+			// stored again somewhere else, under the same id or a new one
+			if r.Chance(0.5) {
+				g.addForbiddenAs(g.forbidden[i].ID, g.fwVector(g.sp.basis()))
+			} else {
+				g.addForbidden(g.fwVector(g.sp.basis()))
+			}
+			if r.Chance(0.5) {
+				target = g.forbidden[len(g.forbidden)-1].Vec // near the new place: blocked; near the old one: forwarded
+				q.NearFw = len(g.forbidden) - 1
+			}
+		}
+		v, label := g.vecRel(target, g.o.FwMetric, g.o.Tf, near)
+		if v == nil {
+			return nil
+		}
+		q.Vec = v
+		q.Kind += "/" + label
+		return q
 	case "pattern":
 		q.Text, q.Denied = g.text(inst(), style, ""), true
 		q.Kind = "pattern-" + style
@@ -389,7 +509,7 @@ func (g *c17Rig) genFirewallReq(kind string, pats []c17Pattern) *c17Req {
 		}
 	}
 	if needSem {
-		q.NearFw = r.Intn(len(g.forbidden))
+		q.NearFw = vkit.Pick(r, live)
 		v, label := g.vecRel(g.forbidden[q.NearFw].Vec, g.o.FwMetric, g.o.Tf, true)
 		if v == nil {
 			return nil
@@ -414,20 +534,30 @@ func c17CacheCase(ctx *vkit.Ctx, cs *vkit.Case) {
 	if r.Chance(0.35) { // operator pre-created the cache index (metric of his choice, with or without analyser)
 		o.CacheMetric = c17PickMetric(r)
 		o.CacheLang = vkit.Pick(r, []string{"english", "italian"})
+		o.CacheF16 = r.Chance(0.3)
 	}
+	o.FwF16 = r.Chance(0.3)
 	var pats []c17Pattern
+	fwOff := false
 	if r.Chance(0.5) {
 		o.FirewallEnabled = true
+		o.Deny, pats = c17PickDeny(r, 1)
+	} else if r.Chance(0.4) {
+		// a deny list and forbidden prompts are configured but the firewall is switched off: they decide nothing
+		fwOff = true
 		o.Deny, pats = c17PickDeny(r, 1)
 	}
 	g := c17NewRig(ctx, cs, o)
 	defer g.close()
-	if o.FirewallEnabled {
+	if o.FirewallEnabled || fwOff {
 		for i, m := 0, r.Intn(3); i < m; i++ {
-			g.addForbidden(g.sp.basis())
+			g.addForbidden(g.fwVector(g.sp.basis()))
 		}
 	}
-	kinds := []string{"new", "new", "near", "near", "near", "near-stream", "planted-young", "planted-old", "shadow", "far", "repeat", "fw-beats-cache"}
+	kinds := []string{"new", "new", "near", "near", "near", "near-stream", "planted-young", "planted-old", "shadow", "shadow-many", "far", "repeat", "fw-beats-cache"}
+	if fwOff {
+		kinds = append(kinds, "fw-off", "fw-off")
+	}
 	for s, n := 0, r.Range(10, 18); s < n; s++ {
 		g.cacheStep(vkit.Pick(r, kinds), pats)
 	}
@@ -436,7 +566,7 @@ func c17CacheCase(ctx *vkit.Ctx, cs *vkit.Case) {
 func (g *c17Rig) liveFresh() []*c17Entry {
 	var out []*c17Entry
 	for _, en := range g.entries {
-		if !en.Removed && en.Fresh {
+		if !en.Removed && !en.Maybe && g.fresh(en) {
 			out = append(out, en)
 		}
 	}
@@ -457,6 +587,52 @@ func (g *c17Rig) cacheStep(kind string, pats []c17Pattern) {
 		q.Vec = v
 		q.Kind += "/" + label
 		q.Stream = kind == "far" && r.Chance(0.3)
+		if kind == "new" && r.Chance(0.08) {
+			// an answer of 70-230 KB: the stored response must be the whole answer
+			q.Kind += "/big-answer"
+			g.upMode = "big"
+			defer func() { g.upMode = "" }()
+		}
+	case "fw-off":
+		// firewall disabled: a prompt that the (unused) deny list / forbidden prompts would match is far from every
+		// stored query, so it "always reaches upstream" (cache clause)
+		if len(g.forbidden) > 0 && r.Chance(0.5) {
+			v, label := g.vecRel(g.forbidden[r.Intn(len(g.forbidden))].Vec, g.o.FwMetric, g.o.Tf, true)
+			if v == nil {
+				return
+			}
+			q.Text, q.Vec = g.text("", "", ""), v
+			q.Kind += "/semantic/" + label
+		} else {
+			v, _ := g.vecFar()
+			if !g.designed(v) {
+				return
+			}
+			q.Text, q.Vec = g.text(vkit.Pick(r, vkit.Pick(r, pats).Instances), vkit.Pick(r, []string{"plain", "mixed", "embedded"}), ""), v
+			q.Kind += "/pattern"
+		}
+	case "shadow-many":
+		// several expired entries are nearer than a fresh one that is within the cache distance as well
+		fresh := g.liveFresh()
+		if len(fresh) == 0 {
+			return
+		}
+		f := vkit.Pick(r, fresh)
+		k := r.Range(2, 8)
+		if g.ctx.IsKnown("D-C17-8") && k > 4 {
+			g.ctx.Count("guard.D-C17-8", 1)
+			k = 4 // exact trigger of D-C17-8: cacheLookupK (5) or more expired entries in front of the fresh one
+		}
+		vs := g.shadowVectors(f.Vec, cm, k)
+		if vs == nil {
+			return
+		}
+		for i, v := range vs {
+			g.seq++
+			g.plant(v, fmt.Sprintf(`{"planted":"stale %d (%d of %d)"}`, g.seq, i+1, k), false, nil)
+		}
+		q.Text, q.Vec = g.text("", "", ""), vs[0]
+		q.Kind += fmt.Sprintf("/%d", k)
 	case "near", "near-stream":
 		fresh := g.liveFresh()
 		if len(fresh) == 0 {
@@ -542,6 +718,36 @@ func (g *c17Rig) cacheStep(kind string, pats []c17Pattern) {
 	g.step("cache", q)
 }
 
+// shadowVectors designs k vectors for expired entries around a query point: the query sits at 0.6 of the near
+// zone from the fresh entry f (distance 0.3*T); vector 0 is the query point itself, vector i lies at distance
+// i*0.02*T from it along one axis orthogonal to f, so every one of them is nearer to the query than f is
+// (0.3*T) and still within T/2 of f. nil when some vector would be at an undesigned distance of an entry.
+func (g *c17Rig) shadowVectors(f []float32, cm distance.DistanceMetric, k int) [][]float32 {
+	T := g.o.Tc
+	cosOf := func(d float64) float64 { // cosine between unit vectors at "distance" d (cosine distance, or plain L2)
+		if cm == distance.Cosine {
+			return 1 - d
+		}
+		return 1 - d*d/2
+	}
+	qv := c17Rotate(f, g.sp.basis(), cosOf(0.6*T/2))
+	axis := g.sp.basis()
+	out := [][]float32{qv}
+	for i := 1; i < k; i++ {
+		out = append(out, c17Rotate(qv, axis, cosOf(float64(i)*0.02*T)))
+	}
+	for _, v := range out {
+		if !g.designed(v) {
+			g.ctx.Count("gen.undesigned_discarded", 1)
+			return nil
+		}
+		if d := c17Dist(cm, v, qv); d >= c17Dist(cm, f, qv) {
+			return nil
+		}
+	}
+	return out
+}
+
 // ---------------------------------------------------------------------------------------
 // group: invalidate
 
@@ -552,9 +758,11 @@ var c17IDFamilies = map[string][]string{
 	"case":       {"Doc_1", "doc_1", "DOC_1", "doc_2"},
 	"stem":       {"report", "reports", "reporting", "reported", "reporter_1"},
 	"stop":       {"the", "it", "readme", "readme_it", "a"},
+	// chunk ids are "<file path>_<n>" (pkg/rag/pipeline.go): a path may contain blanks
+	"space": {"docs/My File.md_0", "docs/My File.md_1", "docs/My", "File.md_0", "docs/Other File.md_0"},
 }
 
-var c17IDFamilyNames = []string{"underscore", "hyphen", "path", "case", "stem", "stop"}
+var c17IDFamilyNames = []string{"underscore", "hyphen", "path", "case", "stem", "stop", "space"}
 
 func c17InvalidateCase(ctx *vkit.Ctx, cs *vkit.Case) {
 	r := cs.R
@@ -564,29 +772,51 @@ func c17InvalidateCase(ctx *vkit.Ctx, cs *vkit.Case) {
 	if r.Chance(0.5) || ctx.IsKnown("D-C17-4") {
 		o.CacheLang = vkit.Pick(r, []string{"english", "english", "italian"})
 	}
+	var pats []c17Pattern
 	if r.Chance(0.4) {
 		o.FirewallEnabled = true
-		o.Deny, _ = c17PickDeny(r, 1)
+		o.Deny, pats = c17PickDeny(r, 1)
+		o.FwIndexCreated = r.Chance(0.75)
+		o.FwMetric, o.Tf = c17PickMetric(r), vkit.Pick(r, c17Thresholds)
 	}
+	// relevance floor of the retrieval: chunks scoring below it are neither injected nor cited
+	o.RAGThreshold = vkit.Pick(r, []float64{0, 0, 0.3, 0.64})
 	fam := vkit.Pick(r, c17IDFamilyNames)
 	if ctx.IsKnown("D-C17-5") {
 		fam = "underscore"
 	}
+	if ctx.IsKnown("D-C17-9") && fam == "space" {
+		ctx.Count("guard.D-C17-9", 1)
+		fam = "path" // exact trigger of D-C17-9: a cited chunk id that contains white space
+	}
 	ids := c17IDFamilies[fam]
 	g := c17NewRig(ctx, cs, o)
 	defer g.close()
+	defer func() { ctx.Count("invalidate.rewrite_attempts_with_llm_down", int64(g.llmCalls)) }()
 	for _, id := range ids {
 		g.addChunk(id, g.sp.basis())
 	}
+	if o.FirewallEnabled && o.FwIndexCreated {
+		for i, m := 0, r.Range(1, 3); i < m; i++ {
+			g.addForbidden(g.fwVector(g.sp.basis()))
+		}
+	}
 	ctx.Count("invalidate.family."+fam, 1)
 
-	ask := func(kind string, v []float32, text string) bool {
-		q := &c17Req{Kind: kind, Shape: "messages", Path: "/v1/chat/completions", NearFw: -1, Text: text, Vec: v}
+	ask := func(kind string, v []float32, text string, before []message) bool {
+		q := &c17Req{Kind: kind, Shape: "messages", Path: "/v1/chat/completions", NearFw: -1, Text: text, Vec: v, Before: before}
 		if q.Text == "" {
 			q.Text = g.text("", "", "")
 		}
 		_, ok := g.step("invalidate", q)
 		return ok
+	}
+	if r.Chance(0.2) {
+		// invalidation when nothing has been cached yet (the cache index may not even exist): nothing to
+		// remove; answers saved later that cite the document are not affected by it
+		g.invalidate(vkit.Pick(r, ids))
+		ctx.Eval(1)
+		ctx.Count("invalidate.calls_on_empty_cache", 1)
 	}
 	// 1. populate: real flow (RAG retrieves the designed chunks) + planted entries
 	type asked struct {
@@ -604,29 +834,71 @@ func c17InvalidateCase(ctx *vkit.Ctx, cs *vkit.Case) {
 			v[k] = 0.5*g.chunks[a].Vec[k] + 0.4*g.chunks[b].Vec[k] + 0.7681146*own[k]
 		}
 		text := g.text("", "", "")
+		var hist []message
+		if r.Chance(0.3) { // a multi-turn conversation: the gateway tries to rewrite the query (its LLM is down)
+			hist = []message{{Role: "user", Content: g.text("", "", "")}, {Role: "assistant", Content: g.words(4)}}
+		}
 		before := len(g.entries)
-		if ask("rag-ask", v, text) && len(g.entries) == before+1 {
+		if ask("rag-ask", v, text, hist) && len(g.entries) == before+1 {
 			en := g.entries[len(g.entries)-1]
 			real = append(real, asked{text, v, en})
-			ctx.Count(fmt.Sprintf("invalidate.real_entry_sources_%d", len(en.Sources)), 1)
-			if len(en.Sources) == 0 {
-				cs.Fail("HARNESS: the RAG flow produced a cache entry without sources (entry %s)", en.ID)
+			ctx.Count(fmt.Sprintf("invalidate.real_entry_cites_%d", len(en.Sources)), 1)
+			if len(en.Sources) == 0 && o.RAGThreshold == 0 {
+				cs.Fail("HARNESS: the RAG flow produced a cache entry whose answer cites nothing (entry %s)", en.ID)
 			}
 		}
 	}
+	var planted []*c17Entry
 	for i, n := 0, r.Range(1, 4); i < n; i++ {
+		// (planted entries are written in the blank-separated format, which cannot carry an id that contains a
+		// blank: such ids are cited by real-flow entries only)
 		var src []string
-		for _, j := range r.Perm(len(ids))[:r.Range(1, 3)] {
-			src = append(src, ids[j])
+		for _, j := range r.Perm(len(ids)) {
+			if len(src) < r.Range(1, 3) && !strings.ContainsAny(ids[j], " \t\n") {
+				src = append(src, ids[j])
+			}
 		}
 		g.seq++
-		g.plant(g.sp.basis(), fmt.Sprintf(`{"planted":"answer %d"}`, g.seq), true, src)
+		planted = append(planted, g.plant(g.sp.basis(), fmt.Sprintf(`{"planted":"answer %d"}`, g.seq), true, src))
+	}
+	// the firewall decides before retrieval, rewriting and the cache, also in a RAG world
+	if o.FirewallEnabled {
+		for i, n := 0, r.Range(1, 2); i < n; i++ {
+			q := &c17Req{Kind: "rag-pattern", Shape: "messages", Path: "/v1/chat/completions", NearFw: -1}
+			if live := g.liveForbidden(); len(live) > 0 && r.Chance(0.5) {
+				q.Kind = "rag-semantic"
+				q.NearFw = vkit.Pick(r, live)
+				v, label := g.vecRel(g.forbidden[q.NearFw].Vec, o.FwMetric, o.Tf, true)
+				if v == nil {
+					continue
+				}
+				q.Text, q.Vec = g.text("", "", ""), v
+				q.Kind += "/" + label
+			} else {
+				q.Text, q.Denied = g.text(vkit.Pick(r, vkit.Pick(r, pats).Instances), vkit.Pick(r, []string{"plain", "mixed", "embedded"}), ""), true
+				q.Vec, _ = g.vecFar()
+				if !g.designed(q.Vec) {
+					continue
+				}
+			}
+			if r.Chance(0.4) {
+				q.Before = []message{{Role: "user", Content: g.text("", "", "")}, {Role: "assistant", Content: g.words(3)}}
+			}
+			g.step("invalidate", q)
+		}
 	}
 	// 2. invalidate one or two document ids, checking the index content each time
 	for round, rounds := 0, r.Range(1, 2); round < rounds; round++ {
 		doc := vkit.Pick(r, ids)
 		if r.Chance(0.15) {
 			doc = doc + "_zz" // an id nobody cites (superstring of a cited one)
+		}
+		if len(g.suspectDocs) > 0 {
+			// an entry's stored sources and the chunks its answer was produced from disagree on this id: the
+			// invalidation of exactly this id decides whether that matters
+			doc = g.suspectDocs[0]
+			g.suspectDocs = g.suspectDocs[1:]
+			ctx.Count("invalidate.calls_on_suspect_id", 1)
 		}
 		cited, kept := g.invalidate(doc)
 		ctx.Eval(1)
@@ -643,11 +915,29 @@ func c17InvalidateCase(ctx *vkit.Ctx, cs *vkit.Case) {
 				if a.en.Removed {
 					kind = "reask-removed"
 				}
+				if !g.designed(a.vec) {
+					continue
+				}
 				before := len(g.entries)
-				if ask(kind, a.vec, a.text) && len(g.entries) == before+1 {
+				if ask(kind, a.vec, a.text, nil) && len(g.entries) == before+1 {
 					a.en = g.entries[len(g.entries)-1] // answered again by the upstream: a new entry
 				}
 			}
+		}
+		// ... also the planted ones (observed through the gateway's answers, not through the index listing)
+		for _, en := range planted {
+			if !r.Chance(0.5) {
+				continue
+			}
+			kind := "reask-planted-kept"
+			if en.Removed {
+				kind = "reask-planted-removed"
+			}
+			v, label := g.vecRel(en.Vec, g.cacheMetric(), o.Tc, true)
+			if v == nil {
+				continue
+			}
+			ask(kind+"/"+label, v, "", nil)
 		}
 	}
 }
